@@ -715,3 +715,44 @@ theorem C20.composite_hash_respects_eq (heap : Nat → String) (a b : List Leaf)
     have := map_eq_of_map_key_eq Leaf.key (Leaf.hkPlain heap)
       (fun x y hxy => Leaf.hkPlain_of_key heap x y hxy) a b hkeys
     simp [Obj.hk, SHKey.eqv, memberKeys, this]
+
+/-! ## laws of the conversions (final round) -/
+
+/-- `astype` is idempotent: casting to `dt` twice is the same as casting once — for every
+shape, source dtype, target dtype, weighting and `can_cast` outcome, including the raising
+cases. -/
+theorem C20.astype_idem (T : DTables) (t : TSpace) (dt : DType) (ok : Bool) :
+    (t.astype T dt ok).bind (·.astype T dt ok) = t.astype T dt ok := by
+  cases h : t.astype T dt ok with
+  | none => rfl
+  | some r =>
+    have hd := (C20.astype_descr T t r dt ok h).2.1
+    simp [TSpace.astype, hd]
+
+example : (⟨[2, 3], .float64, .const .np (.fin 2) (.fin 1)⟩ : TSpace).astype
+    OdlModel.Gen.DTypes.tables .float32 true =
+    some ⟨[2, 3], .float32, .const .np (.fin 2) (.fin 1)⟩ := by decide
+
+/-- The real / complex counterparts STABILISE after one step, for EVERY dtype of the library
+(checked against the dtype tables regenerated from the live module; this is the invariant the
+history stream tests, and it covers `float16`, whose round trip is not the identity):
+`real_space` and `complex_space` are idempotent, and with `c = s.complex_space`,
+`r = c.real_space` the pair is exact: `r.complex_space = c` and `r.complex_space.real_space = r`
+(for `float16`, `r` is the float32 space, not `s`), whenever the conversions are defined
+(`castOk` for array weightings), for every shape and weighting. -/
+theorem C20.real_complex_stabilise (t : TSpace) :
+    let T := OdlModel.Gen.DTypes.tables
+    ((t.realSpace T true).bind (·.realSpace T true) = t.realSpace T true) ∧
+    ((t.complexSpace T true).bind (·.complexSpace T true) = t.complexSpace T true) ∧
+    (((t.complexSpace T true).bind (·.realSpace T true)).bind (·.complexSpace T true) =
+      ((t.complexSpace T true).bind fun c => (c.realSpace T true).map fun _ => c)) ∧
+    ((((t.complexSpace T true).bind (·.realSpace T true)).bind (·.complexSpace T true)).bind
+        (·.realSpace T true) = (t.complexSpace T true).bind (·.realSpace T true)) := by
+  obtain ⟨sh, d, w⟩ := t
+  cases d <;> cases w <;> refine ⟨?_, ?_, ?_, ?_⟩ <;> rfl
+
+example :
+    let T := OdlModel.Gen.DTypes.tables
+    let t : TSpace := ⟨[3], .float16, .const .np (.fin 2) (.fin 1)⟩
+    (t.complexSpace T true).bind (·.realSpace T true) =
+      some ⟨[3], .float32, .const .np (.fin 2) (.fin 1)⟩ := by decide
